@@ -109,19 +109,23 @@ func parseVersion2(reader *bufio.Reader) (header *Header, err error) {
 		state.ProxyErrInvalidHeader.Inc(1)
 		return nil, ErrUnsupportedProtocolVersionAndCommand
 	}
-	// If command is LOCAL, header ends here
-	if header.Command.IsLocal() {
-		return header, nil
-	}
 
 	// Read the 14th byte, address family and protocol
 	b14, err := reader.ReadByte()
 	if err != nil {
+		if header.Command.IsLocal() && err == io.EOF {
+			// a LOCAL header cut right after the command byte: nothing follows
+			return header, nil
+		}
 		state.ProxyErrReadHeader.Inc(1)
 		return nil, ErrCantReadAddressFamilyAndProtocol
 	}
 	header.TransportProtocol = AddressFamilyAndProtocol(b14)
-	if _, ok := supportedTransportProtocol[header.TransportProtocol]; !ok {
+	if header.Command.IsLocal() {
+		// For LOCAL the receiver must use the real connection endpoints and
+		// discard the protocol block of the announced length, whatever the family.
+		header.TransportProtocol = UNSPEC
+	} else if _, ok := supportedTransportProtocol[header.TransportProtocol]; !ok {
 		state.ProxyErrInvalidHeader.Inc(1)
 		return nil, ErrUnsupportedAddressFamilyAndProtocol
 	}
@@ -223,6 +227,10 @@ func (header *Header) writeVersion2(w io.Writer) (int64, error) {
 }
 
 func (header *Header) validateLength(length uint16) bool {
+	if header.TransportProtocol == UNSPEC {
+		// nothing to decode, the whole block is skipped
+		return true
+	}
 	if header.TransportProtocol.IsIPv4() {
 		return length >= lengthV4
 	} else if header.TransportProtocol.IsIPv6() {
